@@ -404,7 +404,7 @@ func checkProgramB(t ev.T, test string, p Program) {
 				// known finding C06-R22: Move onto an existing directory. On the in-memory backend afero's Rename overwrites
 				// the directory (moving an entry onto one of its own ancestors even crashes the process with "sync: RUnlock of
 				// unlocked RWMutex"); such calls are not issued on that backend.
-				if kind == "mem" && c.Op == "Move" && before[path.Clean("w/"+rb)] == "dir" {
+				if kind == "mem" && c.Op == "Move" && before[path.Clean("w/"+rb)] == "dir" && path.Dir(path.Clean("w/"+ra)) != path.Clean("w/"+rb) {
 					ev.Exclude("C06-R22 move onto an existing directory (in-memory backend)")
 					continue
 				}
